@@ -35,6 +35,7 @@ OP_MAP = {
     "<=": "__le__",
     ">=": "__ge__",
     "!=": "__ne__",
+    "<>": "__ne__",
     "==": "__eq__",
     "min": "fmin",
     "max": "fmax",
